@@ -6,6 +6,9 @@ NOT_APPLICABLE = [
     {"property_id": "C18", "reason": "chain building, trust-anchor and host-name validation happen inside reqwest/native-tls/OpenSSL below RequestBuilder::send, exactly the layer the transport seam replaces; exercising it needs real sockets and a real TLS server, i.e. observation of real executions, not simulation"},
     {"property_id": "C19", "reason": "totality over configuration inputs (malformed TOML, overflowing periods, cycles): decided by input generation/fuzzing; no schedule, clock or fault is quantified"},
     {"property_id": "C20", "reason": "the subject is external programs (mkdir, echo, chmod, rm, pkill, git, a daemonising tacd) reached by fork/exec; behind the process seam they would be my models, in front of it kernel-scheduled real processes the simulator neither controls nor replays"},
+    chk("C13", "acmed-sim", "exploration",
+        "invariant at the storage seam, which performs the real open(2)/chown(2): every file written in seeded create/rewrite/restart histories is stat(2)ed; mode at creation == configured & ~umask, unchanged by rewrites; owner as configured by name or number",
+        TRUST + "; runs as root in the sandbox; weakest fit for the technique (no schedule or fault in the statement)", SIM + "; invariant over seeded histories", "DESIGN.md 7 (C13)"),
 ]
 
 def chk(pid, engine, category, text, note, technique, design_ref):
@@ -25,12 +28,18 @@ SIM = "deterministic simulation with fault injection (seeded discrete-event simu
 TRUST = "trusted base: the model CA and monitors (self-tested against RFC vectors), the seams replacing tokio/reqwest/async-process, real OpenSSL; a clean batch is evidence, not proof"
 
 CHECKS = [
+    chk("C01", "acmed-sim", "exploration",
+        "seeded issuance swarm; the reference stands at the other party (model CA: newOrder identifiers against the harness's own IDNA/RFC 5952 expectation, CSR parsed from DER: self-signature, SAN multisets, subject, digest, key) and at the durable store (after success the stored key is the CSR's key); kp_reuse branches are storage states",
+        TRUST + "; the input-space part of the quantifier is covered by seeded generation only", SIM + "; seeded configuration x CA-behaviour swarm", "DESIGN.md 7 (C01)"),
     chk("C02", "acmed-sim", "exploration",
         "seeded renewal and account histories in which successive contents differ in length both ways (chains of 1..4 certificates, restarts, removed files); every completed write through the storage seam is read back from the real file system and must equal exactly the bytes written; after every successful attempt the certificate file equals the CA's served body byte for byte and the key file is the CSR's key",
         TRUST + "; storage seam performs real open(2)/write(2) on a scratch directory (process-crash durability model, no power loss)", SIM + "; seeded history exploration", "DESIGN.md 7 (C02)"),
     chk("C03", "acmed-sim", "fault_enumeration",
         "exhaustive single-fault grid (4 base plans x 14 request positions x 65 network/CA fault kinds, two attempts each) plus seeded random multi-fault sequences; invariant checked on real files at the end of every attempt: certificate file present => parseable chain whose leaf key matches the key file; failed-before-download => a pre-existing matching pair is byte-identical",
         TRUST + "; only network/CA faults are injected (the statement's scope)", SIM + "; exhaustive single-fault grid + random multi-fault search", "DESIGN.md 7 (C03)"),
+    chk("C04", "acmed-sim", "exploration",
+        "every POST delivered by the transport seam in fault-free families is verified by the model CA's independent JWS verifier (shape, alg<->key, url, nonce ledger, jwk/kid discipline, signature from raw JWK members, fixed-width R||S), across 7 key types, badNonce/expiry answers, nonces on GET or not, EAB, account updates and key roll-overs",
+        TRUST + "; judged on fault-free families only", SIM + "; oracle = independent verifier at the simulated peer", "DESIGN.md 7 (C04)"),
     chk("C06", "acmed-sim", "exploration",
         "seeded renewal histories over up to 4000 virtual days; oracle on virtual arrival times of the next attempt against [max(t_eval, notAfter-renew_delay-random_early_renew), max(t_eval, notAfter-renew_delay)] with an explicit epsilon; lifetimes from expired to 10 years, delays from 0 to beyond the lifetime, SAN subsets/supersets/permutations, removed files, stepped wall clock, jitter at both ends",
         TRUST + "; wall-clock steps only while the daemon is stopped", SIM + "; virtual-time exploration", "DESIGN.md 7 (C06)"),
